@@ -15,5 +15,7 @@ MCFormatters == {"goimports", "gofmt", "noop"}
 MCKinds      == {"ss", "si", "sm", "bp", "is"}
 MCExtras     == {"none", "unused"}      \* further replace-type entries for types that occur nowhere: no effect, no import
 MCTdOpts     == {"plain", "opts"}       \* other template-data of the templates (stub-impl, with-resets / unroll-variadic)
+MCVis        == {"exp", "unexp", "unexpreach"}   \* visibility of a replacement type that lives in the mock's own package
+MCDstStates  == {"clean", "pending"}             \* a separate destination package that does not type-check until the mock is written
 MCAll        == {}
 =============================================================================
